@@ -3,7 +3,7 @@
 From Coq Require Import String.
 From Coq Require Import List ZArith NArith Arith Lia.
 From Coq Require Import Strings.Byte.
-From YV Require Import Utf8 IterModel IterSpec IterLang IterProofs.
+From YV Require Import Utf8 IterModel IterSpec IterLang IterProofs IterLangProofs.
 Import ListNotations.
 
 (* --- the sentinel test of the for loop (vm.rs) and of the adapters (core.yl) is the same test --- *)
